@@ -18,6 +18,8 @@ func selftest(which string, args []string) int {
 		return selftestPreservation()
 	case "determinism":
 		return selftestDeterminism(args)
+	case "race":
+		return selftestRace()
 	}
 	die(2, "unknown selftest %s", which)
 	return 2
@@ -150,4 +152,38 @@ func clip(s string, n int) string {
 		return s[:n]
 	}
 	return s
+}
+
+// selftestRace validates the race-detector seam: a planted unsynchronised counter shared by two handler tasks must be
+// reported on the -race build in a strictly serial schedule, and must not be reported when guarded by simrt.Mutex.
+func selftestRace() int {
+	bi := ensureBuild(true)
+	count := func(scen string) (int, string) {
+		cr := execSimrun(context.Background(), bi.Race, 120*time.Second, job{}, "-engine", "netsim", "-prop", "C16", "-scenario", scen, "-seed", "1", "-first", "0", "-runs", "1")
+		n := 0
+		if len(cr.runs) == 1 {
+			for _, f := range cr.runs[0].Findings {
+				if strings.HasPrefix(f.Class, "data-race/") {
+					n++
+				}
+			}
+		}
+		msg := ""
+		if cr.err != nil {
+			msg = cr.err.Error()
+			if strings.Contains(msg, "DATA RACE") {
+				n++ // the planted race is in harness code by construction
+			}
+		}
+		return n, msg
+	}
+	racy, m1 := count("racecheck-racy")
+	locked, m2 := count("racecheck-locked")
+	fmt.Printf("selftest-race: planted unsynchronised counter -> %d report(s); same counter under simrt.Mutex -> %d report(s)\n", racy, locked)
+	if racy == 0 || locked != 0 {
+		fmt.Printf("selftest-race: FAILED (%s | %s)\n", clip(m1, 300), clip(m2, 300))
+		return 1
+	}
+	fmt.Println("selftest-race: ok (the baton carries no happens-before edge; the program's own locks do)")
+	return 0
 }
